@@ -654,14 +654,9 @@ impl Model {
                 next.pairs.remove(k);
             }
             Op::RemoveInsert { remove, insert } => {
-                // overlapping or repeated keys: the doc comment does not say what is returned
-                let mut seen: BTreeSet<&[u8]> = BTreeSet::new();
-                for k in remove.iter().chain(insert.iter().map(|(k, _)| k)) {
-                    if !seen.insert(k.as_slice()) {
-                        judged = false;
-                        why = "remove_insert with overlapping or repeated keys";
-                    }
-                }
+                // "Removes key/value mappings and adds or overwrites key/value mappings": the plain
+                // sequential reading — every removal in argument order, then every insert in
+                // argument order — also settles repeated and overlapping keys.
                 let mut removed = Vec::new();
                 for k in remove {
                     removed.push(next.pairs.remove(k));
